@@ -544,6 +544,51 @@ func runP5(p *an.Prog, r *an.Result) {
 					}
 				}
 			}
+			// (d) the key is the validated result of a helper (key, ok), used under ok: every successful
+			// return of the helper yields a key of the type the helper was given, which is the map's key type
+			if h := guardedHelperResult(p, k, call); h != nil {
+				all := len(h.rets) > 0
+				for _, ret := range h.rets {
+					kv := resultsOf(ret)[0]
+					okRet := false
+					isKT := func(v ssa.Value) bool {
+						prm, isP := v.(*ssa.Parameter)
+						if !isP {
+							return false
+						}
+						for i, fp := range h.fn.Params {
+							if fp == prm && i < len(h.call.Call.Args) {
+								return isKeyTypeOf(h.call.Call.Args[i], m)
+							}
+						}
+						return false
+					}
+					if c := an.CallOf(kv); c != nil && an.CallName(c) == "(reflect.Value).Convert" && isKT(c.Args[1]) {
+						okRet = true
+					}
+					if !okRet {
+						okRet = an.AllPathsGuarded(ret.Block(), func(cond ssa.Value, taken bool) bool {
+							b, ok := cond.(*ssa.BinOp)
+							if !ok || !(b.Op == token.EQL && taken || b.Op == token.NEQ && !taken) {
+								return false
+							}
+							for _, pair := range [][2]ssa.Value{{b.X, b.Y}, {b.Y, b.X}} {
+								if isKT(pair[0]) && (isTypeOf(pair[1], kv) || isTypeOfAny(pair[1], kv)) {
+									return true
+								}
+							}
+							return false
+						})
+					}
+					if !okRet {
+						all = false
+					}
+				}
+				if all {
+					r.OK(name, construct, call.Pos(), "the key is the result of "+an.FuncName(h.fn)+", every successful return of which is Convert(key type) or passes key.Type() == key type")
+					return
+				}
+			}
 			r.Bad(name, construct, call.Pos(), fmt.Sprintf("%s calls MapIndex with a key whose type is not established assignable to the map's key type (no key-type comparison, no Convert to the key type, not one of the map's own keys): reflect panics for a map with another key type", an.FuncName(fn)))
 		})
 	}
@@ -706,13 +751,22 @@ func runP6(p *an.Prog, r *an.Result) {
 					return false
 				}
 				n := an.CallName(c)
-				if n != "(reflect.Type).Comparable" && n != "(reflect.Value).Comparable" {
+				// only the value-level test is sound: reflect.Type.Comparable is true for arrays and
+				// structs with interface elements, whose comparison still panics when an element
+				// holds a slice or map
+				if n != "(reflect.Value).Comparable" {
 					return false
 				}
 				recv := an.Args(c)[0]
 				for _, op := range []ssa.Value{a, b} {
 					if op != nil && derivesFromOperand(recv, op) {
 						return true
+					}
+					// the operand is rv.Interface() (possibly of a converted rv) and the test is on rv
+					if op != nil {
+						if rv := rvBehind(op); rv != nil && sameRV(recv, rv) {
+							return true
+						}
 					}
 				}
 				return false
@@ -733,6 +787,67 @@ func runP6(p *an.Prog, r *an.Result) {
 				if mt, ok := x.X.Type().Underlying().(*types.Map); ok && an.IsInterface(mt.Key()) {
 					check(in, x.Index, nil, fmt.Sprintf("%s[%s]", describe(p, x.X), describe(p, x.Index)))
 				}
+			case *ssa.Call:
+				// reflective map access hashes the key just like m[k] does
+				cn := an.CallName(&x.Call)
+				if cn != "(reflect.Value).MapIndex" && cn != "(reflect.Value).SetMapIndex" {
+					return
+				}
+				k := x.Call.Args[1]
+				construct := fmt.Sprintf("%s hashes %s", strings.TrimPrefix(cn, "(reflect.Value)."), describe(p, k))
+				r.Counts["interface comparisons"]++
+				// the key before any Convert
+				base := k
+				for i := 0; i < 4; i++ {
+					if c := an.CallOf(base); c != nil && an.CallName(c) == "(reflect.Value).Convert" {
+						base = c.Args[0]
+						continue
+					}
+					break
+				}
+				for _, o := range an.Origins(base, an.StepBase) {
+					if c := an.CallOf(o); c != nil {
+						n := an.CallName(c)
+						if n == "(reflect.Value).MapKeys" || n == "values.SortedMapKeys" || n == "(*reflect.MapIter).Key" {
+							r.OK(name, construct, an.InstrPos(in), "the key is a key of a map already: it was hashed when it was inserted")
+							return
+						}
+						if n == "reflect.ValueOf" {
+							if t := an.Strip(c.Args[0]).Type(); types.Comparable(t) && !an.IsInterface(t) && !hasInterfacePart(t, 0) {
+								r.OK(name, construct, an.InstrPos(in), "the key is made from a value of a statically hashable type")
+								return
+							}
+						}
+					}
+				}
+				cmpGuard := func(blk *ssa.BasicBlock, key ssa.Value) bool {
+					kb := convertBase(key)
+					return an.AllPathsGuarded(blk, func(cond ssa.Value, taken bool) bool {
+						c := an.CallOf(cond)
+						if !taken || c == nil || an.CallName(c) != "(reflect.Value).Comparable" {
+							return false
+						}
+						return sameRV(c.Args[0], kb) || sameRV(c.Args[0], key)
+					})
+				}
+				if cmpGuard(in.Block(), k) {
+					r.OK(name, construct, an.InstrPos(in), "every path passes reflect.Value.Comparable() of the key")
+					return
+				}
+				// the key is the validated result of a helper: (key, ok) with the use under ok
+				if h := guardedHelperResult(p, k, in); h != nil {
+					all := len(h.rets) > 0
+					for _, ret := range h.rets {
+						if !cmpGuard(ret.Block(), resultsOf(ret)[0]) {
+							all = false
+						}
+					}
+					if all {
+						r.OK(name, construct, an.InstrPos(in), "the key is the result of "+an.FuncName(h.fn)+", every successful return of which passes reflect.Value.Comparable() of the key")
+						return
+					}
+				}
+				r.Bad(name, construct, an.InstrPos(in), fmt.Sprintf("%s looks a key up reflectively without having established that the key value is hashable (reflect.Value.Comparable; Type.Comparable is not enough): a key holding a slice or map inside an interface-typed array or struct panics with \"hash of unhashable type\"", an.FuncName(fn)))
 			case *ssa.MapUpdate:
 				if mt, ok := x.Map.Type().Underlying().(*types.Map); ok && an.IsInterface(mt.Key()) {
 					check(in, x.Key, nil, fmt.Sprintf("%s[%s] = …", describe(p, x.Map), describe(p, x.Key)))
@@ -1522,4 +1637,98 @@ func nonEmptyFieldLen(p *an.Prog, v ssa.Value) (bool, string) {
 		return false, ""
 	}
 	return true, fmt.Sprintf("the divisor is the length of %s.%s, which every one of its %d constructions builds as append(non-empty literal, …): never zero", an.TypeName(owner), st.Field(fieldIdx).Name(), sites)
+}
+
+// hasInterfacePart: t is (or contains, as array element or struct field) an interface type, so that
+// a value of t can be of a comparable type and still hold something unhashable.
+func hasInterfacePart(t types.Type, depth int) bool {
+	if depth > 5 {
+		return true
+	}
+	switch u := t.Underlying().(type) {
+	case *types.Interface:
+		return true
+	case *types.Array:
+		return hasInterfacePart(u.Elem(), depth+1)
+	case *types.Struct:
+		for i := 0; i < u.NumFields(); i++ {
+			if hasInterfacePart(u.Field(i).Type(), depth+1) {
+				return true
+			}
+		}
+	}
+	return false
+}
+
+// convertBase strips (reflect.Value).Convert calls.
+func convertBase(v ssa.Value) ssa.Value {
+	for i := 0; i < 4; i++ {
+		if c := an.CallOf(v); c != nil && an.CallName(c) == "(reflect.Value).Convert" {
+			v = c.Args[0]
+			continue
+		}
+		break
+	}
+	return v
+}
+
+// rvBehind: op is rv.Interface() for a reflect.Value rv (looking through Convert): rv.
+func rvBehind(op ssa.Value) ssa.Value {
+	c := an.CallOf(an.StripIface(op))
+	if c == nil {
+		c = an.CallOf(op)
+	}
+	if c == nil || an.CallName(c) != "(reflect.Value).Interface" {
+		return nil
+	}
+	return convertBase(c.Args[0])
+}
+
+// helperResult describes a value that is result 0 of a call to a module function whose last
+// result is a bool, used at a point every path to which established that bool.
+type helperResult struct {
+	fn   *ssa.Function
+	call *ssa.Call
+	rets []*ssa.Return // the returns whose bool result is not the constant false
+}
+
+func guardedHelperResult(p *an.Prog, v ssa.Value, at ssa.Instruction) *helperResult {
+	ex, ok := v.(*ssa.Extract)
+	if !ok || ex.Index != 0 {
+		return nil
+	}
+	call, ok := ex.Tuple.(*ssa.Call)
+	if !ok {
+		return nil
+	}
+	fn := call.Call.StaticCallee()
+	if fn == nil || fn.Blocks == nil || !p.InModule(fn) {
+		return nil
+	}
+	res := fn.Signature.Results()
+	if res.Len() < 2 {
+		return nil
+	}
+	last := res.Len() - 1
+	if b, ok := res.At(last).Type().Underlying().(*types.Basic); !ok || b.Kind() != types.Bool {
+		return nil
+	}
+	okGuard := an.AllPathsGuarded(at.Block(), func(cond ssa.Value, taken bool) bool {
+		e, isEx := cond.(*ssa.Extract)
+		return taken && isEx && e.Tuple == ssa.Value(call) && e.Index == last
+	})
+	if !okGuard {
+		return nil
+	}
+	h := &helperResult{fn: fn, call: call}
+	an.EachInstr(fn, func(in ssa.Instruction) {
+		if ret, ok := in.(*ssa.Return); ok {
+			rs := resultsOf(ret)
+			if c, isC := an.ConstBool(rs[last]); isC && !c {
+				return
+			}
+			h.rets = append(h.rets, ret)
+		}
+	})
+	return h
 }
